@@ -24,6 +24,12 @@ def errToJson : Err → Json
 
 def isAscii (x : Str) : Bool := x.all fun c => c.toNat < 128
 
+/-- the names inside `${…}` occurrences of a text (a `${` without closing brace yields the rest of the text) -/
+def refNames : Str → List Str
+  | [] => []
+  | c :: cs =>
+    if startsWith (c :: cs) (s "${") then ((c :: cs).drop 2).takeWhile (· ≠ '}') :: refNames cs else refNames cs
+
 def tablesFor (sheet : String) : List (Str × List Str) × List Str × List Str :=
   if sheet == "survey" then (surveyAliases, surveyColumns, [s "type"])
   else (listAliases, listColumns, [s "name"])
@@ -60,8 +66,12 @@ def modelOfCase (j : Json) : Except String Json := do
     return Json.mkObj [("outcome", "unsupported"), ("why", "settings")]
   if !((c.survey.cols ++ c.choices.cols).all isAscii) then
     return Json.mkObj [("outcome", "unsupported"), ("why", "non-ascii header")]
-  if (c.survey.rows ++ c.choices.rows).any (fun r => r.any fun p => isInfix (s "${") p.2) then
-    return Json.mkObj [("outcome", "unsupported"), ("why", "reference in text")]
+  if c.choices.rows.any (fun r => r.any fun p => isInfix (s "${") p.2) then
+    return Json.mkObj [("outcome", "unsupported"), ("why", "reference in a choices cell")]
+  -- references in survey texts must name a row of the sheet (else the implementation rejects the form: C03/C17)
+  let names := c.survey.rows.filterMap fun r => lookup (s "name") r
+  if c.survey.rows.any (fun r => r.any fun p => !(refNames p.2).all names.contains) then
+    return Json.mkObj [("outcome", "unsupported"), ("why", "reference to an unknown name")]
   let dl := TextSpec.defaultLanguage c
   -- the choices sheet gets `__row` (clean_text_values(add_row_number=True)); rows of the survey sheet do not
   let crows := (TextSpec.indexed c.choices.rows 2).map fun (i, r) => r ++ [(s "__row", natStr i)]
